@@ -13,6 +13,8 @@ import (
 	"sort"
 	"strings"
 	"sync"
+	"sync/atomic"
+	"time"
 
 	rmath "github.com/regen-network/regen-ledger/types/v2/math"
 
@@ -34,6 +36,10 @@ const (
 	// range the property quantifies over (everything is still checked before being dropped)
 	poolMaxDigits = 150
 	poolMaxAbsExp = 300
+
+	// WatchdogStall: wall-clock time without a single completed operation after which the run is abandoned as
+	// INCONCLUSIVE (one operation takes microseconds).
+	WatchdogStall = 60 * time.Second
 )
 
 // TierSize: PRNG-determined operation counts, never wall-clock budgets.
@@ -283,10 +289,13 @@ type worker struct {
 	refVal   *big.Rat
 	pcDone   bool // the full-pool shadow comparison of the current operation has run
 
+	mu        sync.Mutex // guards viol/violCount/knownHits (read by the watchdog while the worker may be stuck)
 	viol      []Violation
 	violKeys  map[string]bool
 	violCount int64
 	knownHits int64
+	progress  atomic.Int64 // steps completed
+	curOp     atomic.Int32 // operation being executed
 	samples   []sample
 	sampled   map[string]int
 }
@@ -357,6 +366,8 @@ func (w *worker) fail(clause, msg string) {
 	if cs.Reference == "" && w.refVal != nil {
 		cs.Reference = ratText(w.refVal)
 	}
+	w.mu.Lock()
+	defer w.mu.Unlock()
 	for _, sig := range w.knownSig {
 		if clauseListed(sig.Clause, clause) && causeHolds(sig.Cause, &cs) {
 			w.knownHits++
@@ -470,14 +481,10 @@ func (w *worker) checkPool(xi, yi int) {
 				role = "operand"
 			}
 			w.fail("operand_mutated", fmt.Sprintf("%s pool member #%d (was %s) changed during the operation: %s", role, p.id, ratText(p.val), d))
-			// re-read so that exploration continues behind this failure
-			if nm, fin, mal := inspect(&p.d); fin && !mal {
-				nm.id, nm.parents = p.id, p.parents
-				nm.sh = takeShadow(&p.d)
-				*p = nm
-			} else {
-				p.sh = takeShadow(&p.d)
-			}
+			// Rebuild the member from its shadow on a FRESH backing array, so that exploration continues behind
+			// this failure with sane values (a half-overwritten big.Int can make later library calls loop or panic).
+			p.d = p.sh.rebuild()
+			p.sh = takeShadow(&p.d)
 		}
 	}
 }
@@ -630,14 +637,19 @@ func (w *worker) genInt64() int64 {
 // Step executes one randomly chosen operation and all monitors.
 func (w *worker) Step() {
 	w.step++
+	defer w.progress.Add(1)
 	op := w.pickOp()
+	w.curOp.Store(int32(op))
 	switch {
 	case op <= opNewNonNegativeFixedDecFromString:
 		from := ""
 		if len(w.pool) > 0 && w.rng.Intn(4) == 0 {
 			p := &w.pool[w.rng.Intn(len(w.pool))]
-			if p.exp < 200 {
-				from = p.d.String()
+			if p.exp < 200 { // the harness's own plain rendering of an earlier result
+				from = renderPlain(p.coef.String(), int(p.exp))
+				if p.neg {
+					from = "-" + from
+				}
 			}
 		}
 		s := genString(w.rng, from)
@@ -1630,7 +1642,54 @@ func Run(cfg Config) Result {
 			}
 		}(workers[i])
 	}
-	wg.Wait()
+	// Watchdog (not an oracle): a library call that never returns would otherwise hang the check. Its firing is
+	// INCONCLUSIVE; violations recorded before it are still reported.
+	done := make(chan struct{})
+	go func() { wg.Wait(); close(done) }()
+	last := make([]int64, len(workers))
+	lastChange := time.Now()
+	tick := time.NewTicker(2 * time.Second)
+	defer tick.Stop()
+wait:
+	for {
+		select {
+		case <-done:
+			break wait
+		case <-tick.C:
+			moved := false
+			for i, w := range workers {
+				if p := w.progress.Load(); p != last[i] {
+					last[i], moved = p, true
+				}
+			}
+			if moved {
+				lastChange = time.Now()
+				continue
+			}
+			if time.Since(lastChange) < WatchdogStall {
+				continue
+			}
+			var stuck []string
+			for i, w := range workers {
+				if w.progress.Load() < ts.OpsPerWorker {
+					stuck = append(stuck, fmt.Sprintf("worker %d at step %d in %s", i, last[i]+1, opNames[w.curOp.Load()]))
+				}
+				res.Evaluations += w.progress.Load()
+				w.mu.Lock()
+				res.ViolationCount += w.violCount
+				res.KnownHits += w.knownHits
+				for _, v := range w.viol {
+					if len(res.Violations) < MaxViolations {
+						res.Violations = append(res.Violations, v)
+					}
+				}
+				w.mu.Unlock()
+			}
+			res.Inconclusive = fmt.Sprintf("watchdog: no operation completed for %s (%s); a library call does not return", WatchdogStall, strings.Join(stuck, "; "))
+			res.Coverage = map[string]any{"evaluations": res.Evaluations}
+			return res
+		}
+	}
 
 	// merge
 	var tot counters
